@@ -136,3 +136,5 @@ def run(ck):
     ck.run_rule("C04.R1", "rel_address = '.' + 2 + preceding operand words", 150, c04.rule_R1)
     ck.run_rule("C02.R6", "the base enters as the start of the first file; continuation across files", 4, c02.rule_R6)
     ck.run_rule("C03.R7", "LinearPolynomial algebra keeps the base linear (cancellation)", 18, c03.rule_R7)
+    from . import c01
+    ck.run_rule("C01.T5", "index words of 'a-b(r)' operands are the expression as written (a difference of labels stays base-free)", 8, c01.rule_T5)
